@@ -164,3 +164,23 @@ func impMemOff(m *moduleEngine) int          { return int(m.parent.offsets.Impor
 //@   ensures[exit-code-reset-after-any-error] err != nil ==> c.execCtx.exitCode == wazevoapi.ExitCodeOK
 //@   ensures[closed-module-is-never-success] err == nil ==> c.parent.module.Closed.Load() == 0
 //@   nosafety
+
+// ---- C09: a compiled module shared through a compilation cache is dropped by the LAST user only.
+func hasCM(e *engine, id wasm.ModuleID) bool { _, ok := e.compiledModules[id]; return ok }
+func cmRefs(e *engine, id wasm.ModuleID) int { return e.compiledModuleRefs[id] }
+
+//@ prop C09
+//@ func (e *engine) retainCompiledModule(m *wasm.Module)
+//@   requires cmRefs(e, m.ID) >= 0 && cmRefs(e, m.ID) < 1<<40
+//@   ensures[one-more-user] cmRefs(e, m.ID) == old(cmRefs(e, m.ID)) + 1
+//@   ensures[entries-untouched] hasCM(e, m.ID) == old(hasCM(e, m.ID))
+
+// (binary search over executable addresses: unsafe; assumed to touch only the sorted list)
+//@ func (e *engine) deleteCompiledModuleFromSortedList(cm *compiledModule)
+//@   trusted
+//@   modifies e.sortedCompiledModules, elems(e.sortedCompiledModules)
+
+//@ func (e *engine) DeleteCompiledModule(m *wasm.Module)
+//@   ensures[shared-entry-survives] old(cmRefs(e, m.ID)) > 1 ==> hasCM(e, m.ID) == old(hasCM(e, m.ID)) && cmRefs(e, m.ID) == old(cmRefs(e, m.ID)) - 1 && e.compiledModules[m.ID] == old(e.compiledModules[m.ID])
+//@   ensures[last-user-removes-it] old(cmRefs(e, m.ID)) <= 1 ==> !hasCM(e, m.ID) && cmRefs(e, m.ID) == 0
+//@   nosafety
